@@ -11,6 +11,16 @@ CLAIMED = {
         note="Trusted: z3's FP/BV theories, the SymDateTime (Gregorian) and struct byte-layout stubs (differentially tested by selfcheck), symx itself. Out-of-range id wrap is a recorded known finding.",
         design="4/C04"),
 }
+CLAIMED.update({
+    "C10": dict(
+        text="The real filter predicate, the receive and send gates and the device-creation filter run with the membership of every id in known/block list as free solver Booleans, the enforcement flag, the gateway choice and the direction symbolic; each path's outcome is compared with an independent formula of the statement. Because memberships are free Booleans the verdict holds for lists of any size.",
+        note="Trusted: z3, symx, the reference predicate transcribed from the statement. The dispatcher's device creation from addresses is outside (needs a live gateway). A block-listed active gateway still getting a Device is a recorded known finding.",
+        design="4/C10"),
+    "C19": dict(
+        text="One inductive step of the real FaultLog code from an arbitrary symbolic pre-state (any newest-first map over any controller log, symbolic time stamps) for any admissible message re-establishes the invariant that *is* the property (newest-first, hence no duplicates; only reported entries; views do not raise), so histories of any length are covered; read-through and announcement clauses are multi-step symbolic queries.",
+        note="Trusted: z3, symx; time stamps are modelled as integers order-isomorphic to the fixed-width text; log depth bounded (N+2, N<=4 quick / 6 thorough); get_faultlog's request loop is covered by C06/C07, not here.",
+        design="4/C19"),
+})
 NOT_APPLICABLE = {
     "C12": "whole-gateway discovery against a scripted controller over simulated hours: the quantified space is a discrete configuration/loss pattern and the entity layer (voluptuous schemas, pollers, entity graph) is outside the symbolically executable subset; decode kernels it rests on are covered under C05",
     "C15": "schema validity/consistency over packet histories: validators are voluptuous (third-party, callable/regex based, not instrumented) and the rules live in the entity graph; no symbolic dimension is encodable within reach",
